@@ -429,21 +429,26 @@ impl Part for C07E2X {
     fn strategy(_tier: Tier) -> BoxedStrategy<XCase> {
         Just(XCase { programs: vec![], choices: vec![], max_preempt: 0 }).boxed()
     }
-    fn directed(tier: Tier) -> Vec<XCase> {
+    fn enumerate(tier: Tier, visit: &mut dyn FnMut(&XCase, Outcome) -> bool) {
         // enumerate every schedule of every small program by depth-first re-execution
         // context bound (number of preemptions); every schedule within the bound is enumerated
         let bound = if tier == Tier::Quick { 2 } else { 4 };
-        let mut out = vec![];
         for programs in small_programs() {
             let case = Case { programs: programs.clone(), schedule: vec![] };
             let (_runs, complete) = crate::e2::enumerate_schedules(3_000_000, |choices| {
-                let (_, log) = run_case(&case, false, Sched::Explicit(choices.clone(), Some(bound)));
-                out.push(XCase { programs: programs.clone(), choices: log.iter().map(|c| c.0).collect(), max_preempt: bound });
+                let (mut o, log) = run_case(&case, false, Sched::Explicit(choices.clone(), Some(bound)));
+                o.nontrivial = log.iter().any(|c| c.0 != 0);
+                let xc = XCase { programs: programs.clone(), choices: log.iter().map(|c| c.0).collect(), max_preempt: bound };
+                if !visit(&xc, o) {
+                    return vec![];
+                }
                 log
             });
-            assert!(complete, "enumeration cap hit");
+            if !complete {
+                // the visitor stopped the enumeration (violation found)
+                return;
+            }
         }
-        out
     }
     fn run(case: &XCase, want_trace: bool) -> Outcome {
         let c = Case { programs: case.programs.clone(), schedule: vec![] };
@@ -692,5 +697,84 @@ impl Part for C02E2 {
     }
     fn rule() -> &'static str {
         "controlled OS threads on a detached cell (same generator as C07 part e2): 1-3 sender threads x 1-3 sends racing with drain/Stopping/port-set drop at every verif_point! of the send path; oracle = every accepted message exactly once in the mailbox, per-thread FIFO and interval order, rejected messages handed back and absent; non-trivial = a send interval overlaps a drain interval and >=1 preemption happened"
+    }
+}
+
+// ---- free-running part -------------------------------------------------------------------
+
+pub struct C07Free;
+
+#[derive(Clone, Debug, Serialize, Deserialize)]
+pub struct FreeCase {
+    pub programs: Vec<Vec<Op2>>,
+    pub spin: Vec<u32>,
+    pub rounds: u16,
+}
+
+impl Part for C07Free {
+    type Case = FreeCase;
+    const PROP: &'static str = "C07";
+    const PART: &'static str = "free";
+    const DETERMINISTIC: bool = false;
+    fn cases(tier: Tier) -> u32 {
+        match tier {
+            Tier::Quick => 1_600,
+            Tier::Thorough => 80_000,
+        }
+    }
+    fn strategy(_tier: Tier) -> BoxedStrategy<FreeCase> {
+        (2usize..=4, 4usize..=14, proptest::collection::vec(0u32..600, 6), any::<bool>())
+            .prop_map(|(ns, len, spin, two_drains)| {
+                let mut programs: Vec<Vec<Op2>> = (0..ns)
+                    .map(|s| (0..len).map(|k| if (s + k) % 5 == 4 { Op2::SendSerialized { id: (100 * (s + 1) + k) as u32 } } else { Op2::Send { id: (100 * (s + 1) + k) as u32, re: None } }).collect())
+                    .collect();
+                programs.push(if two_drains { vec![Op2::Drain, Op2::Drain] } else { vec![Op2::Drain] });
+                FreeCase { programs, spin, rounds: 25 }
+            })
+            .boxed()
+    }
+    fn run(case: &FreeCase, want_trace: bool) -> Outcome {
+        let c = Case { programs: case.programs.clone(), schedule: vec![] };
+        let mut nontrivial = false;
+        for _ in 0..case.rounds {
+            let (cell, ports) = ractor::verif::detached_cell::<Dummy>(None).expect("detached cell");
+            let sh = Arc::new(Shared { cell: cell.clone(), ports: Mutex::new(Some(ports)) });
+            let run = crate::e2::run_threads_free(sh.clone(), c.programs.clone(), case.spin.clone(), exec);
+            let mut mailbox = vec![];
+            if let Some(p) = sh.ports.lock().unwrap().as_mut() {
+                while let Some(m) = p.try_recv_message() {
+                    match m {
+                        DetachedMsg::Drain => mailbox.push(None),
+                        DetachedMsg::Msg(b) => {
+                            let id = if let Some(ractor::message::SerializedMessage::Cast { args, .. }) = &b.serialized_msg {
+                                u32::from_le_bytes(args[..4].try_into().unwrap_or([255; 4]))
+                            } else {
+                                <Outer as ractor::Message>::from_boxed(b).map(|o| o.id).unwrap_or(u32::MAX)
+                            };
+                            mailbox.push(Some(id));
+                        }
+                    }
+                }
+            }
+            let admission = ractor::verif::admission_word(&cell);
+            ractor::verif::set_status(&cell, ractor::ActorStatus::Stopped);
+            let out = Outcome2 { run, mailbox, admission, ports_dropped: false };
+            match check(&c, &out) {
+                Err(mut v) => {
+                    v.msg = format!("(free-running threads; observed history) {}", v.msg);
+                    let trace = if want_trace {
+                        out.run.recs.iter().map(|r| format!("thread {} op {} [{}..{}] -> {:?}", r.tid, r.idx, r.start, r.end, r.res)).collect()
+                    } else {
+                        vec![]
+                    };
+                    return Outcome { verdict: Verdict::Fail(v), nontrivial: false, labels: vec![], trace };
+                }
+                Ok((nt, _)) => nontrivial |= nt,
+            }
+        }
+        Outcome { verdict: Verdict::Pass, nontrivial, labels: vec![], trace: vec![] }
+    }
+    fn rule() -> &'static str {
+        "2-4 free-running sender threads x 4-14 typed/serialized sends racing one drainer thread (1-2 drain calls) on a detached cell, released from a barrier with generated busy-wait offsets, 25 rounds per generated case; no schedule control (reaches windows without verif_point!); same mailbox oracle as part e2; a violation is reported with the observed history; non-trivial = a send interval overlapped a drain interval"
     }
 }
